@@ -1,1 +1,141 @@
-From DA Require Import Prelude.
+(* C05 - every produced array is well-formed and history-independent. *)
+From Coq Require Import Qround Qabs Permutation.
+From DA Require Import Prelude NDArray Array PyRT.
+From DA.Model Require Import Value Reshape SliceSpec Indexing Align Transform Flatten Construct Cache Ops.
+From DA.Proofs Require Import C10_proofs C05_proofs.
+Open Scope string_scope.
+Open Scope nat_scope.
+Open Scope list_scope.
+
+(* WF a: one axis per dimension with matching length, data of the right size, dimension names distinct and
+   non-empty; it is the boolean test [wfb] that the case files evaluate on every model result *)
+Theorem C05_wf_is_wfb : forall a, wfb a = true <-> WF a.
+Proof. exact wfb_WF. Qed.
+Print Assumptions C05_wf_is_wfb.
+
+(* ---- constructors ---- *)
+(* every array a constructor form returns is well-formed *)
+Theorem C05_ctor_wf : forall sp v a, spec_ok sp -> List.length (dat v) = prod (sh v) -> ctor sp v = Ok a -> WF a.
+Proof. exact ctor_wf. Qed.
+Print Assumptions C05_ctor_wf.
+Theorem C05_ctor_fill_wf : forall sp shape c k a, spec_ok sp -> ctor_fill sp shape c k = Ok a -> WF a.
+Proof. exact ctor_fill_wf. Qed.
+Print Assumptions C05_ctor_fill_wf.
+
+(* all documented forms of the same axes build the same array (or fail alike): label lists + dims =
+   (name, labels) pairs = Axis objects = dict (in any order) + dims; dims only = lists 0..n-1 + dims;
+   nothing = dims x0, x1, ...; zeros / ones / empty = the constructor on the constant array *)
+Theorem C05_lists_pairs : forall (ns : list dname) ls v,
+  List.length ns = List.length ls -> ctor (SLists ls (Some ns)) v = ctor (SPairs (combine ns ls)) v.
+Proof. exact ctor_lists_pairs. Qed.
+Print Assumptions C05_lists_pairs.
+Theorem C05_pairs_objs : forall (ns : list string) ls v,
+  List.length ns = List.length ls -> ~ In "" ns ->
+  ctor (SPairs (combine (map DStr ns) ls)) v = ctor (SAxisObjs (axes_of ns ls)) v.
+Proof. exact ctor_pairs_objs. Qed.
+Print Assumptions C05_pairs_objs.
+Theorem C05_dict_objs : forall (ns : list string) ls l' v,
+  ns <> [] -> List.length ns = List.length ls -> NoDup ns -> ~ In "" ns ->
+  Permutation l' (combine (map DStr ns) ls) ->
+  ctor (SDict l' (map DStr ns)) v = ctor (SAxisObjs (axes_of ns ls)) v.
+Proof. exact ctor_dict_objs. Qed.
+Print Assumptions C05_dict_objs.
+Theorem C05_dims_only : forall ds v,
+  List.length ds = List.length (sh v) ->
+  ctor (SDimsOnly ds) v = ctor (SLists (map (fun n => (KI, arange_labels n)) (sh v)) (Some ds)) v.
+Proof. exact ctor_dims_only. Qed.
+Print Assumptions C05_dims_only.
+Theorem C05_nothing : forall v,
+  ctor SNothing v = ctor (SDimsOnly (map (fun i => DStr (default_name i)) (seq 0 (List.length (sh v))))) v.
+Proof. exact ctor_nothing. Qed.
+Print Assumptions C05_nothing.
+Theorem C05_fill : forall sp c k axs,
+  shape_free sp = true -> init_axes sp [] = Ok axs ->
+  ctor_fill sp None c k = ctor sp (mk (map alen axs) k (fun _ => c)).
+Proof. exact ctor_fill_ctor. Qed.
+Print Assumptions C05_fill.
+
+(* rejections: data whose shape disagrees with the axes; duplicate dimension names *)
+Theorem C05_rejects_shape : forall sp v axs,
+  init_axes sp (sh v) = Ok axs -> map alen axs <> sh v -> ctor sp v = Err OtherError.
+Proof. exact ctor_rejects_shape. Qed.
+Print Assumptions C05_rejects_shape.
+Theorem C05_rejects_dup_objs : forall l v, ~ NoDup (map aname l) -> ctor (SAxisObjs l) v = Err ValueError.
+Proof. exact ctor_rejects_dup_axisobjs. Qed.
+Print Assumptions C05_rejects_dup_objs.
+Theorem C05_rejects_dup_pairs : forall (ns : list string) ls v,
+  List.length ns = List.length ls -> ~ In "" ns -> ~ NoDup ns -> ctor (SPairs (combine (map DStr ns) ls)) v = Err ValueError.
+Proof. exact ctor_rejects_dup_pairs. Qed.
+Print Assumptions C05_rejects_dup_pairs.
+Theorem C05_rejects_dup_lists : forall (ns : list string) ls v,
+  List.length ns = List.length ls -> ~ In "" ns -> ~ NoDup ns -> ctor (SLists ls (Some (map DStr ns))) v = Err ValueError.
+Proof. exact ctor_rejects_dup_lists. Qed.
+Print Assumptions C05_rejects_dup_lists.
+
+(* ---- operations: well-formedness is an invariant of every program over the covered operations ---- *)
+(* [covered a o]: transpose / swapaxes / rollaxis / repeat / newaxis (non-empty name) / squeeze / reductions /
+   cumulative / diff / argmin,argmax / dropna / fillna / setna / mask assignment / take_axis / compress_axis /
+   sort_axis / interp_axis / interp_like / in-place relabelling / a.dims = / queries, and in-place renaming of
+   one axis PROVIDED the new name is not the name of another dimension (open finding axis-name-sibling) *)
+Theorem C05_step_wf : forall ins o a v, WF a -> covered a o = true -> apply_op ins o a = Ok v -> WFv v.
+Proof. exact apply_op_wf. Qed.
+Print Assumptions C05_step_wf.
+Theorem C05_program_wf : forall ins ops a v, WF a -> prog_covered ins ops a = true -> run_ops ins ops a = Ok v -> WFv v.
+Proof. exact run_ops_wf. Qed.
+Print Assumptions C05_program_wf.
+(* the side condition on renaming is necessary: the faithful model (like the code) accepts a sibling's name *)
+Theorem C05_rename_sibling_refuted :
+  exists a r n v, WF a /\ apply_op [] (ORenameAxis r n) a = Ok (VArr v) /\ wfb v = false.
+Proof.
+  exists (Arr [Ax "a" KI [L_ 0] [] []; Ax "b" KI [L_ 0; L_ 1] [] []] [1; 2] KF [N_ 1; N_ 2] []), (ByName "a"), "b".
+  eexists. split; [apply wfb_WF; vm_compute; reflexivity|]. split; vm_compute; reflexivity.
+Qed.
+Print Assumptions C05_rename_sibling_refuted.
+
+(* ---- history independence of the cached state ---- *)
+(* the cached answer of is_monotonic() is right in every state reachable from a fresh Axis by any history of
+   queries, label edits, sorts, slices, reversals, takes and copies ... *)
+Theorem C05_cache_invariant : forall ops ls k, cache_ok (fst (crun ops {| cl := ls; ck := k; cm := None |})).
+Proof. exact crun_cache_ok. Qed.
+Print Assumptions C05_cache_invariant.
+(* ... so an Axis with a history answers every operation like a fresh Axis with the same labels *)
+Theorem C05_cache_history_independent : forall s o,
+  cache_ok s ->
+  snd (cstep s o) = snd (cstep (fresh s) o) /\
+  cl (fst (cstep s o)) = cl (fst (cstep (fresh s) o)) /\ ck (fst (cstep s o)) = ck (fst (cstep (fresh s) o)).
+Proof. exact cache_history_independent. Qed.
+Print Assumptions C05_cache_history_independent.
+
+(* ---- non-vacuity ---- *)
+Definition ex3 : darr :=
+  Arr [Ax "t" KI [L_ 4; L_ 0; L_ 2] [] []; Ax "u" KO [LStr "p"; LStr "q"] [] []] [3; 2] KF
+      [N_ 40; N_ 41; N_ 0; N_ 1; N_ 20; N_ 21] [("units", MStr "K")].
+Definition ex_prog : list op :=
+  [OSortAxis (ByName "t"); OTranspose []; ONewaxis "z" None 1; OCum false false (ByName "t");
+   ODiff (ByName "t") Backward false 1; OSetDims ["a"; "b"; "c"]; ORenameAxis (ByPos 0) "q";
+   OSetLabel (ByName "c") 0 (L_ 9) KI; OSqueeze None; OReduce RSum false (AxOne (ByName "c"))].
+Example C05_program_nonvacuous :
+  WF ex3 /\ prog_covered [] ex_prog ex3 = true /\
+  exists r, run_ops [] ex_prog ex3 = Ok (VArr r) /\ dims r = ["q"] /\ dat (vals r) = [N_ 60; N_ 62].
+Proof.
+  split; [apply wfb_WF; vm_compute; reflexivity|]. split; [vm_compute; reflexivity|].
+  exists (Arr [Ax "q" KO [LStr "p"; LStr "q"] [] []] [2] KF [N_ 60; N_ 62] [("units", MStr "K")]).
+  split; [vm_compute; reflexivity|]. split; vm_compute; reflexivity.
+Qed.
+Definition ex_v : nd := mk [2; 1] KF (fun c => N_ (Z.of_nat (nth 0 c 0))).
+Definition ex_ls : list labspec := [(KI, [L_ 5; L_ 6]); (KO, [LStr "p"])].
+Definition ex_built : darr := Arr [Ax "x" KI [L_ 5; L_ 6] [] []; Ax "y" KO [LStr "p"] [] []] [2; 1] KF [N_ 0; N_ 1] [].
+Example C05_forms_nonvacuous :
+  ctor (SLists ex_ls (Some [DStr "x"; DStr "y"])) ex_v = Ok ex_built /\
+  ctor (SDict [(DStr "y", (KO, [LStr "p"])); (DStr "x", (KI, [L_ 5; L_ 6]))] [DStr "x"; DStr "y"]) ex_v = Ok ex_built /\
+  ctor (SPairs [(DStr "x", (KI, [L_ 5; L_ 6])); (DStr "y", (KO, [LStr "p"]))]) ex_v = Ok ex_built /\ wfb ex_built = true /\
+  ctor (SPairs [(DStr "x", (KI, [L_ 5; L_ 6])); (DStr "x", (KO, [LStr "p"]))]) ex_v = Err ValueError /\
+  ctor (SLists [(KI, [L_ 5]); (KO, [LStr "p"])] (Some [DStr "x"; DStr "y"])) ex_v = Err OtherError.
+Proof.
+  split; [vm_compute; reflexivity|]. split; [vm_compute; reflexivity|]. split; [vm_compute; reflexivity|].
+  split; [vm_compute; reflexivity|]. split; vm_compute; reflexivity.
+Qed.
+Example C05_cache_nonvacuous :
+  snd (crun [CQuery; CSetItem 0 (L_ 9) KI; CQuery; CSort; CQuery; CSlice 1 3; CReverse; CQuery] {| cl := [L_ 1; L_ 2; L_ 3]; ck := KI; cm := None |})
+  = [OBool true; ONone; OBool false; ONone; OBool true; ONone; ONone; OBool true].
+Proof. vm_compute. reflexivity. Qed.
